@@ -402,4 +402,16 @@ Definition pcheck (c : case) : bool :=
       all_same db_eqb finals && all_same derived_eqb der
   end.
 
-Definition known (_ : case) : bool := false.
+(* Known-finding class "derived-after-uuid-conflict": the replicated state of all replicas is identical, only
+   derived (not replicated) attributes differ, and the history contains a uuid conflict (a conflict copy
+   exists).  Two shapes observed on the real code: (a) the conflict copy keeps the loser's memberof /
+   directmemberof on the replica that minted it and has none elsewhere; (b) on a replica that merely KEEPS its
+   entry in a uuid conflict the post-replication plugins strip memberof values pointing to that uuid although
+   the surviving group still lists the member. *)
+Definition known (c : case) : bool :=
+  match c with
+  | CHist _ _ finals der =>
+      all_same db_eqb finals && negb (all_same derived_eqb der)
+      && existsb (fun d => existsb (fun ke => is_copy_id (fst ke)) d) finals
+  | _ => false
+  end.
